@@ -4,6 +4,27 @@ MK = 'pedal/sandbox/mocked.py'
 TO = 'pedal/sandbox/timeout.py'
 
 CASES = [
+    # fix 12d227e: compile() on a text with a null byte gives a SyntaxError with no position, text or file name
+    dict(name='revert-fix-made-up-frame-line-length', kind='mutant', rule='R7', key='compile-error[null byte,3.11/3.12,',
+         edits=[dict(file='pedal/utilities/exceptions.py',
+                     old="            line = frame._line if frame._line is not None else ''\n            end_offset = frame.end_colno+1 if frame.lineno == frame.end_lineno else len(line)\n",
+                     new="            end_offset = frame.end_colno+1 if frame.lineno == frame.end_lineno else len(frame._line)\n            line = frame._line if frame._line is not None else ''\n")]),
+    dict(name='revert-fix-made-up-frame-filename', kind='mutant', rule='R7', key='compile-error[null byte,3.11/3.12,HtmlFormatter]',
+         edits=[dict(file='pedal/utilities/exceptions.py',
+                     old='            filename = self.exception.filename if self.exception.filename is not None else "<string>"\n',
+                     new='            filename = self.exception.filename\n')]),
+    # where the missing name is supplied is not a clause: here the traceback text supplies it
+    dict(name='twin-missing-filename-defaulted-when-rendered', kind='twin',
+         edits=[dict(file='pedal/utilities/exceptions.py',
+                     old='            filename = self.exception.filename if self.exception.filename is not None else "<string>"\n',
+                     new='            filename = self.exception.filename\n'),
+                dict(file='pedal/utilities/exceptions.py',
+                     old='             f" of file {formatter.filename(frame.filename)}" +',
+                     new='             f" of file {formatter.filename(frame.filename or \'the program\')}" +')]),
+    dict(name='twin-made-up-frame-gets-empty-line', kind='twin',
+         edits=[dict(file='pedal/utilities/exceptions.py',
+                     old='                                   lineno, None, offset-1, end_lineno, end_offset-1)',
+                     new='                                   lineno, "", offset-1, end_lineno, end_offset-1)')]),
     dict(name='revert-fix-str-guard-exception-only', kind='mutant', rule='R4', key='runtime_error.__init__:builds[str(exception)=raises SystemExit]',
          edits=[dict(file='pedal/sandbox/feedbacks.py', old="        except BaseException:\n            # A student-defined exception can have a broken __str__ (one that exits included)", new="        except Exception:\n            # A student-defined exception can have a broken __str__")]),
     dict(name='revert-fix-format_line-without-columns', kind='mutant', rule='R4', key='format_line[',
